@@ -36,6 +36,52 @@ CLAIMED = {
         note="Bounded: <=4 concurrent transactions, 3 entities. Read versions are observed on one node through a version-marker "
              "property the harness rewrites after every commit. Error kinds (not found vs not active) are not constrained.",
         ref="DESIGN.md §4 C09"),
+    "C06": dict(
+        text="GraphStore.tla models the store's redundant structures (endpoint/type arrays, write buffer and frozen CSR tier as a bag of "
+             "(src,dst,id) entries, label and type indexes, node row map and property column) with one action per public mutator "
+             "(create/delete node and relationship, stubs, finish_bulk_load, compact_adjacency, set/remove property, add/remove label). "
+             "Every read view the property names is defined from the PHYSICAL variables the way the Rust read paths compute it; TLC checks "
+             "ViewsAgree / NoDangling / NothingInherited exhaustively on the design (2 nodes, 2 relationships, all histories to depth 4/7) "
+             "and finds the frozen-tier witness when the deviation actions are enabled. One script per transition plus random 30-step "
+             "histories over 3 nodes / 3 relationships are replayed on the real GraphStore; after every step ~25 read APIs for every id are "
+             "logged and TLC validates each against the model's views (GraphStore_Trace.tla).",
+        note="Bounded universe (ids <= 3, labels {A,B}, types {T,U}, one property key). Stub relationships only between live nodes; "
+             "type-index and relationships-between views are not checked while a bulk load is open. Open finding "
+             "KF_C06_FrozenKeepsDeleted is modelled by two deviation actions (delete after compaction leaves frozen entries).",
+        ref="DESIGN.md §4 C06"),
+    "C07": dict(
+        text="Mvcc.tla carries the IDEAL versioned history (state of every node / relationship as of every version) next to the IMPL "
+             "structures (version chains, relationship version log) updated exactly as the code does. TLC shows on the design that IMPL "
+             "does not refine IDEAL (witnesses of the three open findings) and that the ideal history is stable; scripts (one per "
+             "transition over 1 node/1 relationship/3 versions, random 24-step histories over 2 nodes/5 versions: create, set/remove "
+             "property, label changes, commit bump, delete, relationship property writes) are replayed on the real GraphStore; every "
+             "(entity, version) read, node_count and all_nodes after every step must equal the IDEAL view, or the IMPL view where a "
+             "listed finding explains the difference; anything else is a violation.",
+        note="Bounded universe (<=2 nodes, 1 relationship, <=5 versions). Known findings are accepted only when the observation equals "
+             "the pinned algorithm's result exactly (category-wise: node history, relationship history, counts).",
+        ref="DESIGN.md §4 C07"),
+    "C08": dict(
+        text="Same specification as C07 (Mvcc.tla) restricted to histories containing gc_versions(w) for every watermark 0..MaxV+1, "
+             "gc_auto and active snapshot transactions. TLC checks GcKeeps (reads at versions >= watermark unchanged) on the ideal "
+             "history; on the real store every GC event is validated twice: against the model views, and directly on the observations "
+             "(every read at a version >= the watermark equals what the previous event observed; the automatic watermark never exceeds "
+             "the start version of an active transaction).",
+        note="Bounded universe as C07. Reads released by GC (below the watermark and below the current version) are unconstrained.",
+        ref="DESIGN.md §4 C08"),
+    "C10": dict(
+        text="Order.tla states the order laws (reflexive, antisymmetric, transitive, agreement of cmp with equality, equal values hash "
+             "equally, ORDER BY order a total preorder) over relations RECORDED from the implementation on a 54-value boundary universe "
+             "(signed zeros, NaNs of both signs, infinities, integers around 2^53, i64 extremes, empty/nested lists and maps, vectors, "
+             "durations, datetimes, null): TLC evaluates every pair and every triple (157k) and classifies each counterexample by the "
+             "classes of the values involved. OrderIndex.tla models the property index as a set of (value, node) pairs; TLC enumerates "
+             "every insertion/removal order of <=4 operations over values that include -NaN, -1.0 and Integer 0, each order is replayed "
+             "on the real PropertyIndex (BTreeMap keyed by Ord) and get() of every value plus the full range() after every step are "
+             "validated by TLC.",
+        note="TLC judges the observed relation; IEEE-754 itself is not modelled, so values outside the enumerated universe are not "
+             "covered (no random values). Thin use of the technique for the law clause (the specification is a set of quantified laws, "
+             "not a state machine).",
+        technique="TLA+ order laws evaluated by TLC over relations recorded from the implementation; TLC-generated insertion orders replayed on the real index and validated by TLC",
+        ref="DESIGN.md §4 C10"),
 }
 
 NOT_YET = "check not built yet in this round (planned in DESIGN.md §4); not claimed until its check is green on the unchanged tree"
